@@ -703,8 +703,76 @@ JOIN_VARIANTS = [("join", {"ship": s, "local": l, "variant": v}) for s in ("hash
                  for v in (("inner", "left", "outer") if s == "hash" else ("inner", "left"))]
 
 
+def interval_join_replay(V, wd, tier):
+    """Interval join on timestamped scripts (two sequential sources, free-running with seeded delays)."""
+    from common import run_jobs, split_trace_files, validate_parallel
+    rng = random.Random(seed() + 808)
+    q = tier == "quick"
+    jobs, meta = [], {}
+
+    def side(n):
+        ts = sorted(rng.randrange(0, 7) for _ in range(n))
+        return [[rng.randrange(1, 50), t] for t in ts]
+
+    def script(items):
+        out, lastw = [], -1
+        for v, t in items:
+            if t - 1 > lastw and rng.random() < 0.7:
+                out.append({"k": "W", "ts": t - 1})
+                lastw = t - 1
+            out.append({"k": "T", "v": v, "ts": t, "delay": rng.choice([0, 0, 100, 400])})
+        out.append({"k": "R"})
+        return out
+    for i in range(150 if q else 2500):
+        iters = rng.choice([1, 1, 2])
+        left = [side(rng.choice([0, 1, 2, 3, 4])) for _ in range(iters)]
+        right = [side(rng.choice([0, 1, 2, 3, 4])) for _ in range(iters)]
+        lower, upper = rng.choice([0, 1, 2]), rng.choice([0, 1, 2])
+        ls = [e for it in left for e in script(it)]
+        rs = [e for it in right for e in script(it)]
+        if iters > 1:
+            continue_ok = True
+        nodes = [{"id": "l", "op": "src", "kind": "script", "repl": "one", "scripts": [ls]},
+                 {"id": "r", "op": "src", "kind": "script", "repl": "one", "scripts": [rs]},
+                 {"id": "j", "op": "ijoin", "lower": lower, "upper": upper, "in": ["l", "r"]},
+                 {"id": "k", "op": "sink", "kind": "collect_vec", "in": ["j"]}]
+        jid = f"ij{i}"
+        jobs.append({"id": jid, "prog": {"nodes": nodes}, "cfg": {"mode": "local", "par": rng.choice([1, 2])},
+                     "batch": rng.choice(["single", "default", "fixed:2"]), "trace": False, "perturb_us": 0,
+                     "hang_ms": 15000})
+        meta[jid] = {"ev": "case", "id": jid, "op": "ijoin", "variant": "", "ml": lower, "mr": upper,
+                     "left": left, "right": right}
+    # iterations of unsynchronised free-running sources are outside the environment assumption: one iteration only
+    jobs = [j for j in jobs if len(meta[j["id"]]["left"]) == 1]
+    results, _ = run_jobs(jobs, wd, timeout=1200)
+    recs = []
+    jb = {j["id"]: j for j in jobs}
+    for jid, res in results.items():
+        if res.get("hang"):
+            V.add_violation({"prop": "C08", "kind": "job_hang", "job": jid}, replay=jb[jid])
+            continue
+        if not jobsuite.job_ok(res):
+            V.add_violation({"prop": "C08", "kind": "job_panic", "job": jid, "panics": res.get("panics", [])[:2]}, replay=jb[jid])
+            continue
+        out = [s_["res"] for h in res["hosts"] for s_ in h["sinks"] if s_["res"] is not None]
+        rec = dict(meta[jid])
+        rec["res"] = out[0] if out else []
+        recs.append(rec)
+        recs.append({"ev": "done", "id": jid})
+    files = split_trace_files(recs, wd, "ijoin", max_events=600)
+    viols, consumed, states, _ = validate_parallel("JoinCheck", files, wd)
+    for v in viols:
+        if v["prop"] == "C08":
+            V.add_violation(v, replay=jb.get(v["job"]))
+    V.coverage["states"] += states
+    V.coverage["transitions"] += states
+    V.coverage["traces_validated_against_impl"] += len(recs) // 2
+    V.coverage["interval_join_cases"] = len(recs) // 2
+
+
 def C08(V, tier):
     binary_replay(V, workdir("C08r"), tier, "C08", JOIN_VARIANTS)
+    interval_join_replay(V, workdir("C08i"), tier)
     rng = random.Random(seed() + 8)
     _focused(V, tier, "C08", gen.join_programs(rng, 60 if tier == "quick" else 600), checks=("result",),
              perturb_us=400)
